@@ -30,7 +30,7 @@ ASSUMPTIONS = ["schedule coverage = the interleavings the delay plans and forced
 
 
 def plan(tier):
-    return {"cases": 96 if tier == "quick" else 1200, "shards": 16, "parallel": 12,
+    return {"cases": 96 if tier == "quick" else 2400, "shards": 16, "parallel": 12,
             "shard_budget_s": 500 if tier == "quick" else 3300, "watchdog_s": 1200 if tier == "quick" else 4500}
 
 
